@@ -19,6 +19,9 @@ CONFIGS = [
 
 
 def op_case(o, options, tier, tracer="none"):
+    if "family:K2" in o.tags:
+        return dict(schema=corpus.SCHEMA_K2, doc_text=o.doc_text, op_name=o.name, uses_var=False, kwargs_list=corpus.k2_kwargs(o), options=options,
+                    checks=["c01"], bound=2 if tier == "quick" else 3, max_runs=400 if tier == "quick" else 2000, tracer=tracer)
     return dict(schema=corpus.SCHEMA_K, doc_text=o.doc_text, op_name=o.name, uses_var=o.uses_var, options=options,
                 checks=["c01"], bound=2 if tier == "quick" else 3, max_runs=300 if tier == "quick" else 1500, tracer=tracer)
 
@@ -35,7 +38,8 @@ def build_cases(tier):
     pair_ops = [o for o in corpus.enumerate_ops(pairs, rich=(tier != "quick"), stats=st2, validate_ops=False) if "k2" in o.tags]
     wops = corpus.w_ops()
     cases = []
-    for o in single_ops + wops + pair_ops:
+    k2 = corpus.k2_ops()
+    for o in single_ops + wops + pair_ops + k2:
         cases.append((o, {}, "none"))
     # configuration product on the single-feature sub-corpus (every grammar production once)
     step = 1 if tier != "quick" else 3
@@ -43,11 +47,11 @@ def build_cases(tier):
     for cfg in CONFIGS:
         if cfg == {"convert_to_snake_case": True, "async_client": True, "opentelemetry_client": False}:
             continue
-        for o in sub:
+        for o in sub + k2:
             cases.append((o, cfg, "none"))
             if cfg["opentelemetry_client"] and cfg["convert_to_snake_case"]:
                 cases.append((o, cfg, "noop"))
-    return cases, {"singles": len(single_ops), "wrapper_ops": len(wops), "pairs": len(pair_ops), "config_subcorpus": len(sub)}
+    return cases, {"k2_ops": len(k2), "singles": len(single_ops), "wrapper_ops": len(wops), "pairs": len(pair_ops), "config_subcorpus": len(sub)}
 
 
 def run(tier, rep, checks=("c01",), clause_prefix=""):
@@ -65,13 +69,14 @@ def run(tier, rep, checks=("c01",), clause_prefix=""):
     outcomes = set()
     distinct = set()
     for (o, cfg, tr), c, (st, r) in zip(cases, payload, results):
-        case_desc = {"schema": "K", "query": o.doc_text, "options": cfg, "tracer": tr}
+        k2f = "family:K2" in o.tags
+        case_desc = {"schema": "K2" if k2f else "K", "query": o.doc_text, "options": cfg, "tracer": tr}
         feats = None
 
         def F():
             nonlocal feats
             if feats is None:
-                feats = set(features.op_features(schema, o.doc_text))
+                feats = set(features.op_features(corpus.schema_k2() if k2f else schema, o.doc_text)) | set(t for t in o.tags if t.startswith("k2:"))
                 feats |= {f"cfg:{k}={v}" for k, v in cfg.items()} if cfg else set()
             return feats
         if rep.triage:
@@ -126,6 +131,9 @@ def replay(path):
     name = next(d.name.value for d in doc.definitions if d.kind == "operation_definition")
     c = dict(schema=corpus.SCHEMA_K, doc_text=case["query"], op_name=name, uses_var="$v" in case["query"], options=case.get("options") or {},
              checks=["c01"], bound=2, max_runs=300, tracer=case.get("tracer", "none"))
+    if case.get("schema") == "K2":
+        o = next(x for x in corpus.k2_ops() if x.name == name)
+        c.update(schema=corpus.SCHEMA_K2, uses_var=False, kwargs_list=corpus.k2_kwargs(o))
     st, r = pool.run_forked(opcheck.evaluate_op, c)
     print(st, json.dumps({k: v for k, v in (r or {}).items() if k in ("status", "gen_error", "problem_counts", "runs", "responses")}, default=str))
     for p in (r or {}).get("problems", [])[:5]:
